@@ -8,7 +8,13 @@ EXTENDS Cache, Json
 (*                   REPLAY line per (prior, server, entry[, aged]) when   *)
 (*                   the next start has finished and nobody was killed.    *)
 (*   MC_Cache_v*     the protocols the code must not implement: each must  *)
-(*                   violate the named invariant (non-vacuity).            *)
+(*                   violate the named invariant (non-vacuity).  v_trunc   *)
+(*                   (a transfer error is ignored) is checked without the  *)
+(*                   validation step and without close-delimited answers:  *)
+(*                   framing alone must defend a Content-Length body;      *)
+(*                   v_noval is the protocol without the validation step   *)
+(*                   against close-delimited answers; v_fixedtmp the fixed *)
+(*                   temp file name (violates Recovers after a kill).      *)
 
 MCCuts  == 0..(NewLen - 1)
 MCCodes == {301, 404, 500}
@@ -17,7 +23,7 @@ MCOne   == {1}
 After == IF cache = NewC THEN "new" ELSE IF cache = PriorC THEN "prior" ELSE "mixed"
 
 \* what the property admits after this combination, whatever the moment of a kill
-Allowed == IF server.mode = "ok" THEN <<"prior", "new">> ELSE <<"prior">>
+Allowed == IF server.mode \in Succeeds THEN <<"prior", "new">> ELSE <<"prior">>
 
 EmitCase ==
   (run = 2 /\ pc = "done" /\ ~r1.crashed) =>
